@@ -10,7 +10,8 @@ T == TR.ev
 Max(a, b) == IF a > b THEN a ELSE b
 TraceInit == /\ tid \in 1 .. Len(Traces) /\ l = 1 /\ TLCSet(tid, 1)
              /\ sc = [ne |-> TR.ne, nd |-> TR.nd, lineage |-> [k \in 1 .. TR.nd |-> ToSet(TR.lineage[k])],
-                      held |-> ToSet(TR.held), ordered |-> TR.ordered]
+                      held |-> ToSet(TR.held), ordered |-> TR.ordered,
+                      sink |-> IF "sink" \in DOMAIN TR THEN [k \in 1 .. TR.nd |-> TR.sink[k]] ELSE [k \in 1 .. TR.nd |-> 1]]
              /\ delivered = <<>> /\ consumed = {} /\ fired = <<>> /\ failed = {}
 Event(ev) ==
     CASE ev.ev = "Deliver" -> Deliver(ev.k)
